@@ -996,9 +996,39 @@ def evaluate(ctx, cases):
     return out
 
 
+def shrink_avg(ctx, case, what):
+    """one bin, one baseline"""
+    T, F, B = case['T'], case['F'], case['B']
+    ta, ca = min(case['timeav'], T), case['chanav']
+    if ca > F or ta == 0:
+        return case, what
+    key_of = (lambda w: w.split('[')[0][:30])
+
+    def crop(t0, f0, b):
+        idx = [((t * F + f) * B + b) for t in range(t0, t0 + ta) for f in range(f0, f0 + ca)]
+        c = dict(case, T=ta, F=ca, B=1)
+        for nm in ('re', 'im', 'w', 'flags'):
+            c[nm] = [case[nm][i] for i in idx]
+        return c
+    for t0 in range(0, T // ta * ta, ta):
+        for f0 in range(0, F // ca * ca, ca):
+            for b in range(B):
+                cand = crop(t0, f0, b)
+                try:
+                    bad = evaluate(common.Ctx(ctx.prop, ctx.tier, ctx.seed), [cand])
+                except Exception:   # noqa: BLE001
+                    continue
+                hit = [(c, w) for c, w in bad if key_of(w) == key_of(what)]
+                if hit:
+                    return hit[0]
+    return case, what
+
+
 def shrink(ctx, case, what):
     """single time-frequency sample that still fails (array kinds); kern is already one triple"""
     kind = case.get('kind')
+    if kind == 'avg':
+        return shrink_avg(ctx, case, what)
     if kind not in ('wps', 'vfw') or case.get('vv'):
         return case, what
     T, F, B = case['T'], case['F'], len(case['cps'])
